@@ -233,7 +233,9 @@ fn supervise(cfg: &Cfg, id: &str, tier: Tier) -> ! {
         let file = replay_dir.join(format!("crash-{}-{}", std::process::id(), name));
         let kind = if name == "hang.json" { "hang" } else { "abort" };
         let _ = std::fs::write(&file, serde_json::to_string_pretty(&json!({"property": id, "fingerprint": format!("{id}:{kind}"), "input": input})).unwrap());
-        let out = std::process::Command::new("timeout").args(["-s", "KILL", "30"]).arg(&exe).args([id, "--replay"]).arg(&file).output().expect("replay candidate");
+        // A hang is a case that, run alone, still exceeds the watchdog's limit (plus start-up).
+        let limit = if kind == "hang" { (crate::core::HANG_LIMIT_S + 2).to_string() } else { "30".to_string() };
+        let out = std::process::Command::new("timeout").args(["-s", "KILL", &limit]).arg(&exe).args([id, "--replay"]).arg(&file).output().expect("replay candidate");
         let died = !matches!(out.status.code(), Some(0) | Some(1) | Some(2));
         if died {
             culprits += 1;
